@@ -62,9 +62,11 @@ def dtlz(args):
         else:
             g = ops.Sum([(y - 0.5) * (y - 0.5) for y in tail])
         if fam == 1:
-            ctx.check('objectives-sum-to-half-(1+g)', ops.differs(ops.Sum(f), 0.5 * (1 + g), TOL))
+            lhs, rhs = ops.Sum(f), 0.5 * (1 + g)
+            ctx.check('objectives-sum-to-half-(1+g)', ops.differs(lhs, rhs, TOL), witness=ops.far(lhs, rhs, 1e-3))
         else:
-            ctx.check('objective-vector-has-norm-(1+g)', ops.differs(ops.Sum([v * v for v in f]), (1 + g) * (1 + g), TOL))
+            lhs, rhs = ops.Sum([v * v for v in f]), (1 + g) * (1 + g)
+            ctx.check('objective-vector-has-norm-(1+g)', ops.differs(lhs, rhs, TOL), witness=ops.far(lhs, rhs, 1e-3))
         for i, v in enumerate(f):
             ctx.check('objective-%d-nonnegative' % i, v < -TOL)
     return body
@@ -89,7 +91,7 @@ def dtlz_front(args):
             # cos(0) = 1 -> g = 100*(k - k) = 0
             ctx.check('front-on-simplex-0.5', ops.differs(ops.Sum(f), 0.5, TOL))
         else:
-            ctx.check('front-on-unit-sphere', ops.differs(ops.Sum([v * v for v in f]), 1.0, TOL))
+            ctx.check('front-on-unit-sphere', ops.differs(ops.Sum([v * v for v in f]), 1.0, TOL), witness=ops.far(ops.Sum([v * v for v in f]), 1.0, 1e-3))
     return body
 
 
